@@ -27,6 +27,7 @@ struct Nfa {
 
 // A grammar as it goes into a plan: {"kind": "fsg"|"jsgf"|"align", "text": ..., "nfa": {...}, "feat": [...]}
 void set_rhyme_groups(const std::vector<std::vector<std::string>> &groups);
+void set_homophone_groups(const std::vector<std::vector<std::string>> &groups); // spellings with identical pronunciations
 void set_convergence_bias(bool on); // C01: more grammars in which rhyming word arcs from different states converge
 Json gen_fsg(Rng &r, const std::vector<std::string> &vocab);
 Json gen_jsgf(Rng &r, const std::vector<std::string> &vocab);
